@@ -1,8 +1,9 @@
 #!/usr/bin/env python3
 """(Re)file a confirmed seed under /verif/seeded/ using the stored confirmation result and a fresh run of our check.
-   python3 tools/refile_seed.py <Cxx> <k>"""
+   python3 tools/refile_seed.py <Cxx> <k> [<dest index>]"""
 import json, os, shutil, subprocess, sys, tempfile
 pid, k = sys.argv[1].upper(), sys.argv[2]
+dest_k = sys.argv[3] if len(sys.argv) > 3 else k
 res = json.load(open("/tmp/seed/confirm_%s_%s.json" % (pid, k)))
 assert res["confirmed"], "not confirmed"
 OUT = "/tmp/seed/out_%s" % pid
@@ -27,7 +28,7 @@ try:
 finally:
     shutil.rmtree(tmp, ignore_errors=True)
 det = [l.strip()[:400] for l in c.stdout.splitlines() if "VIOLATION-DETAIL" in l][:4]
-d = "/verif/seeded/%s_%s" % (pid, k)
+d = "/verif/seeded/%s_%s" % (pid, dest_k)
 os.makedirs(d, exist_ok=True)
 shutil.copy(patch, os.path.join(d, "patch.diff")); shutil.copy(demo, os.path.join(d, "demo.py"))
 if os.path.exists(note): shutil.copy(note, os.path.join(d, "note.md"))
